@@ -128,6 +128,7 @@ type Exec struct {
 	fmtHyp     []Term // hypotheses under which the verb/operand obligations are stated (fmtwhen)
 	fuelFor    map[string]int
 	allSyms    map[string]bool
+	contractDepth map[*ssa.Function]int
 }
 
 func (x *Exec) unsupported(format string, a ...any) {
